@@ -243,8 +243,10 @@ inductive Step
 def swapSt (s : St) : St :=
   if s.y ≥ s.x then { A := s.C, B := s.D, C := s.A, D := s.B, x := s.y, y := s.x } else s
 
-/-- multiprecision quotient step (the `continue` branch) -/
-def fallbackStep (N : Nat) (ext : Bool) (s : St) : Option St :=
+/-- multiprecision quotient step (the `continue` branch).
+`K` is the width (in words) of the `BInt` cofactors: the real code has `K = N`; the parameter only
+exists so that theorems can tell cofactor overflow apart from every other panic site. -/
+def fallbackStep (N K : Nat) (ext : Bool) (s : St) : Option St :=
   let x := s.x
   let y := s.y
   if ext then
@@ -259,21 +261,21 @@ def fallbackStep (N : Nat) (ext : Bool) (s : St) : Option St :=
           -- (x, y) = (y, y - r)
           if y < r then none
           else
-            match chkB N (castB N q + 1) with
+            match chkB K (castB N q + 1) with
             | none => none
             | some q1 =>
-              match mulSub N q1 s.C s.A, mulSub N q1 s.D s.B with
+              match mulSub K q1 s.C s.A, mulSub K q1 s.D s.B with
               | some c, some d => some { A := s.C, B := s.D, C := c, D := d, x := y, y := y - r }
               | _, _ => none
         else
           let qi := castB N q
-          match subMul N s.A qi s.C, subMul N s.B qi s.D with
+          match subMul K s.A qi s.C, subMul K s.B qi s.D with
           | some c, some d => some { A := s.C, B := s.D, C := c, D := d, x := y, y := r }
           | _, _ => none
   else some { s with x := y, y := x % y }
 
 /-- 64-bit lattice reduction step on the top words -/
-def lehmerStep (N : Nat) (ext : Bool) (s : St) (bts xtop ytop : Nat) : Option St :=
+def lehmerStep (N K : Nat) (ext : Bool) (s : St) (bts xtop ytop : Nat) : Option St :=
   match reduce64 xtop ytop with
   | none => none
   | some (a, b, c, d) =>
@@ -281,10 +283,10 @@ def lehmerStep (N : Nat) (ext : Bool) (s : St) (bts xtop ytop : Nat) : Option St
     match dotProduct N size a s.x b s.y, dotProduct N size c s.x d s.y with
     | some (axby, negx), some (cxdy, negy) =>
       if ext then
-        match lin2 N a s.A b s.C, lin2 N a s.B b s.D, lin2 N c s.A d s.C, lin2 N c s.B d s.D with
+        match lin2 K a s.A b s.C, lin2 K a s.B b s.D, lin2 K c s.A d s.C, lin2 K c s.B d s.D with
         | some aa, some bb, some cc, some dd =>
-          match (if negx then chkB N (-aa) else some aa), (if negx then chkB N (-bb) else some bb),
-                (if negy then chkB N (-cc) else some cc), (if negy then chkB N (-dd) else some dd) with
+          match (if negx then chkB K (-aa) else some aa), (if negx then chkB K (-bb) else some bb),
+                (if negy then chkB K (-cc) else some cc), (if negy then chkB K (-dd) else some dd) with
           | some aa, some bb, some cc, some dd =>
             some { A := aa, B := bb, C := cc, D := dd, x := axby, y := cxdy }
           | _, _, _, _ => none
@@ -308,7 +310,7 @@ def branchOf (N : Nat) (s0 : St) : Branch :=
       if lx + 36 ≥ N * 64 ∨ ly + 36 ≥ N * 64 ∨ ytop < 2 ^ 32 then .fallback else .lehmer
 
 /-- one iteration of the `loop` of `gcd_internal::<N, EXT>` -/
-def gcdStep (N : Nat) (ext : Bool) (s0 : St) : Option Step :=
+def gcdStep (N K : Nat) (ext : Bool) (s0 : St) : Option Step :=
   let s := swapSt s0
   let lx := bits s.x
   let ly := bits s.y
@@ -320,7 +322,7 @@ def gcdStep (N : Nat) (ext : Bool) (s0 : St) : Option Step :=
       match egcdI64 (asI64 (s.x % W)) (asI64 (s.y % W)) with
       | none => none
       | some (g, ex, ey) =>
-        match lin2 N ex s.A ey s.C, lin2 N ex s.B ey s.D with
+        match lin2 K ex s.A ey s.C, lin2 K ex s.B ey s.D with
         | some u, some v => some (.ret (g % (W : Int)).toNat u v)
         | _, _ => none
     else some (.ret (Nat.gcd (s.x % W) (s.y % W)) 0 0)
@@ -329,18 +331,18 @@ def gcdStep (N : Nat) (ext : Bool) (s0 : St) : Option Step :=
     match top64 (toDigits N s.x) bts, top64 (toDigits N s.y) bts with
     | some xtop, some ytop =>
       if lx + 36 ≥ N * 64 ∨ ly + 36 ≥ N * 64 ∨ ytop < 2 ^ 32 then
-        (fallbackStep N ext s).map Step.next
-      else (lehmerStep N ext s bts xtop ytop).map Step.next
+        (fallbackStep N K ext s).map Step.next
+      else (lehmerStep N K ext s bts xtop ytop).map Step.next
     | _, _ => none
 
 /-- the `loop` with fuel -/
-def gcdLoop (N : Nat) (ext : Bool) : Nat → St → Option (Nat × Int × Int)
+def gcdLoop (N K : Nat) (ext : Bool) : Nat → St → Option (Nat × Int × Int)
   | 0, _ => none
   | f + 1, s =>
-    match gcdStep N ext s with
+    match gcdStep N K ext s with
     | none => none
     | some (.ret d u v) => some (d, u, v)
-    | some (.next s') => gcdLoop N ext f s'
+    | some (.next s') => gcdLoop N K ext f s'
 
 /-- fuel that always suffices (`gcd_terminates`): the product `x*y < 2^(128 N)` shrinks by a
 factor `3/4` at least in every iteration. -/
@@ -350,7 +352,7 @@ def initSt (n p : Nat) : St := { A := 1, B := 0, C := 0, D := 1, x := n, y := p 
 
 /-- `gcd_internal::<N, EXT>(n, p)` -/
 def gcdInternal (N : Nat) (ext : Bool) (n p : Nat) : Option (Nat × Int × Int) :=
-  gcdLoop N ext (gcdFuel N) (initSt n p)
+  gcdLoop N N ext (gcdFuel N) (initSt n p)
 
 /-- `big_gcd::<N>(n, p)` -/
 def bigGcd (N n p : Nat) : Option Nat :=
@@ -382,12 +384,12 @@ def invMod (N n p : Nat) : Option InvRes :=
       else some (.ok (u.toNat % p))
 
 /-- sequence of branches taken by the main loop (driver only: evidence of branch coverage) -/
-def branchTrace (N : Nat) (ext : Bool) : Nat → St → List Branch
+def branchTrace (N K : Nat) (ext : Bool) : Nat → St → List Branch
   | 0, _ => []
   | f + 1, s =>
     branchOf N s ::
-      match gcdStep N ext s with
-      | some (.next s') => branchTrace N ext f s'
+      match gcdStep N K ext s with
+      | some (.next s') => branchTrace N K ext f s'
       | _ => []
 
 end Ymq.Gcd
